@@ -1184,11 +1184,25 @@ Proof. unfold lit_unset, lit_false, pm_is_set. destruct (pm_get m (lvar l)); [di
 Lemma filter_len_le {A} (p : A -> bool) l : length (filter p l) <= length l.
 Proof. induction l as [|x t IH]; simpl; [lia|]. destruct (p x); simpl; lia. Qed.
 
+(* the first two unassigned literal occurrences of a stored clause are never the same literal
+   (what the replacement-watch choice relies on).  Guaranteed by Cnf::new for every input
+   (Proofs/UnitPropFix.v: cnf_new_adj_ok) and by repetition-free clauses. *)
+Definition rem_adj_ok (cls : list clause) : Prop :=
+  forall c m u s rest, In c cls -> remaining m c = u :: s :: rest -> u <> s.
+
+Lemma nodup_adj_ok cls : Forall (@NoDup lit) cls -> rem_adj_ok cls.
+Proof.
+  intros Hnd c m u s rest Hc Erem.
+  assert (Hndc : NoDup c) by (eapply Forall_forall in Hnd; eauto).
+  assert (Hndr : NoDup (remaining m c)) by (apply NoDup_filter; exact Hndc).
+  rewrite Erem in Hndr. inversion Hndr as [|? ? Hni _]; subst. intros ->. apply Hni. left. reflexivity.
+Qed.
+
 Section FIX.
 Variable nvars : nat.
 Variable cls : list clause.
 Hypothesis Hrange : lits_in_range nvars cls.
-Hypothesis Hnd : Forall (@NoDup lit) cls.
+Hypothesis Hadj : rem_adj_ok cls.
 
 Definition frame_eq (m : pmodel) (except : option lit) (w w' : watches) : Prop :=
   forall l, pm_is_set m (lvar l) = true -> Some l <> except -> wl_get w' l = wl_get w l.
@@ -1282,10 +1296,7 @@ Proof.
       assert (Hu : In u (remaining m c)) by (rewrite Erem; left; reflexivity).
       assert (Hs : In second (remaining m c)) by (rewrite Erem; right; left; reflexivity).
       apply remaining_in in Hu. apply remaining_in in Hs. destruct Hu as [Huc Huu]. destruct Hs as [Hsc Hsu].
-      assert (Hus : u <> second).
-      { assert (Hndc : NoDup c) by (eapply Forall_forall in Hnd; eauto).
-        assert (Hndr : NoDup (remaining m c)) by (apply NoDup_filter; exact Hndc).
-        rewrite Erem in Hndr. inversion Hndr as [|? ? Hni _]; subst. intros ->. apply Hni. left. reflexivity. }
+      assert (Hus : u <> second) by (eapply Hadj; eauto).
       assert (Hfla : lit_false m la = true) by (apply lit_true_false_neg; exact Hta).
       assert (Hnlc : In nl c /\ lit_unset m nl = true) by (unfold nl; destruct (mem_nat ci (wl_get w u)); auto).
       destruct Hnlc as [Hnlc Hnlu].
@@ -1384,7 +1395,7 @@ Qed.
 (* ---------- one decide from a state satisfying the invariant (repaired code) ----------
    [w] are the shared watch lists, [m] the model on top of the stack, [mj] any model below it. *)
 Theorem fix_step nvars cls fuel w m a w' r :
-  lits_in_range nvars cls -> Forall (@NoDup lit) cls -> ~ In [] cls ->
+  lits_in_range nvars cls -> rem_adj_ok cls -> ~ In [] cls ->
   S_inv nvars cls w -> length m = nvars -> lvar a < nvars ->
   up_decide false cls fuel w m a = URes w' r ->
   S_inv nvars cls w' /\
@@ -1392,8 +1403,8 @@ Theorem fix_step nvars cls fuel w m a w' r :
   (forall m', r = Some m' -> V cls [] w m -> units_true cls m ->
      V cls [] w' m' /\ units_true cls m' /\ length m' = nvars /\ pm_le m m' /\ fixpoint_ok cls m' = true).
 Proof.
-  intros Hrange Hnd Hne HS Hlen Ha H.
-  pose proof (proj1 (up_fix nvars cls Hrange Hnd fuel) _ _ _ _ _ HS Hlen Ha H) as [HS' [_ [Hlow Hcur]]].
+  intros Hrange Hadj Hne HS Hlen Ha H.
+  pose proof (proj1 (up_fix nvars cls Hrange Hadj fuel) _ _ _ _ _ HS Hlen Ha H) as [HS' [_ [Hlow Hcur]]].
   pose proof (proj1 (up_basic false cls fuel) _ _ _ _ _ (S_ok _ _ _ HS) H) as [_ [Hm _]].
   split; [exact HS'|split; [intros mj Hle HV; apply Hlow; assumption|]].
   intros m' Hr HV Hu. destruct (Hm m' Hr) as [Hlen' Hle].
